@@ -85,6 +85,10 @@ def truncation_rules(chk, repo, rule, rows_tie_holds, thorough=False):
         elif o == "returned":
             if len(tr.records) >= n:
                 bad.append(f"file of {n} lines x {L} bytes cut to {c} bytes (of {DESCRIPTOR + n * L}), records_per_chunk={rpc}: the pass returns all {len(tr.records)} line records - bytes that are not in the file were accepted")
+            elif getattr(tr, "header_returned", None) is not None and tr.header_returned != getattr(tr, "header_as_parsed", None):
+                diff = sorted(k for k in set(tr.header_returned) | set(tr.header_as_parsed) if tr.header_returned.get(k) != tr.header_as_parsed.get(k)) if isinstance(tr.header_returned, dict) else ["?"]
+                bad.append(f"file of {n} lines x {L} bytes cut to {c} bytes (of {DESCRIPTOR + n * L}), records_per_chunk={rpc}: {len(tr.records)} of {n} line records are returned together with a header that no longer says what the file "
+                           f"declares (changed: {diff[:3]}): the declared shape follows the records that arrived, so a truncated image yields a tree instead of an error")
             elif rows_tie_holds is None:
                 undecided.append((n, L, rpc, c, "undecided: fewer records than declared are returned and whether the `rows` dimension ties them to the declared shape (C18-E3) could not be decided"))
             elif not rows_tie_holds:
